@@ -876,6 +876,13 @@ class Gen:
                 for q in ps[1:]:
                     self.do({"op": "bin", "bop": "sub", "a": acc, "b": q})
                     acc = self.last()
+                # an operation on each parameter alone: it has that parameter's secrecy, whatever the others are
+                for q, t in zip(ps, kinds):
+                    if t != "Integer":
+                        self.do({"op": "bin", "bop": "mul", "a": q, "b": q})
+                        sq = self.last()
+                        self.do({"op": "bin", "bop": "sub", "a": acc, "b": sq})
+                        acc = self.last()
                 return acc
             ret = "SecretInteger" if "SecretInteger" in kinds else "PublicInteger"
             self.define_fn(anns=kinds, ret=ret, plan=body)
@@ -905,6 +912,12 @@ class Gen:
             g2 = self.last()
             if describe(self.m.regs[g2])[0] == "fn":
                 self.do({"op": "call", "f": g2, "args": [vals[0]]})
+            # the calls are what the program delivers: every keyword order reaches a compilation
+            calls = [r for r in range(f + 1, len(self.m.regs)) if self.scope[r] == 0 and self.m.regs[r] is not DEAD
+                     and describe(self.m.regs[r])[0] == "scalar" and r not in vals]
+            rng.shuffle(calls)
+            for i in range(0, min(len(calls), 8), 4):
+                self.compile_now(prefer=calls[i:i + 4])
             return None
         if k == "sharedlit":
             # a literal traced before a compilation and reused after it next to a new literal
